@@ -27,7 +27,7 @@ ASSUMPTIONS = [
     "enumerators are passed to / returned by the run-time codec by name (the one permitted representational difference)",
     "only declared enumerator values are used; strings are 7-bit ASCII; floats finite (JSON)",
 ]
-FLOORS = {"negative": 0.15, "sub_byte": 0.3, "nested_container": 0.05, "enum": 0.1, "optional_some": 0.03,
+FLOORS = {"negative": 0.15, "sub_byte": 0.3, "nested_container": 0.05, "enum": 0.05, "optional_some": 0.03,
           "compiled": (0.9, "program")}
 
 preflight = c03.preflight
